@@ -46,7 +46,9 @@ def sel_judge(name, rule, k, outty, want, allow_missing=False):
                 res.append(R.ob(oid, rule, R.PROVED, 'is %s' % tm.show(exp, 3), kernel=k.source()))
             else:
                 pure = t.op in ('in', 'const') or (t.op == 'slice' and t.args[0].op == 'in') or L.deps(t) != L.deps(exp)
-                res.append(R.ob(oid, rule, R.REFUTED if pure else R.UNDECIDED, 'got %s, expected %s' % (tm.show(t, 4), tm.show(exp, 4)), where=R.where_of(it, t), kernel=k.source()))
+                wit = None if pure else L.pattern_witness(t, exp)
+                res.append(R.ob(oid, rule, R.REFUTED if (pure or wit) else R.UNDECIDED, 'got %s, expected %s%s' % (tm.show(t, 4), tm.show(exp, 4), (' (for the input bit patterns %s: %#x versus %#x)' % wit) if wit else ''),
+                                where=R.where_of(it, t), kernel=k.source()))
         return res
     return judge
 
